@@ -100,3 +100,19 @@ func TestGlobalWindow_TriggerOverExpressionAggregate(t *testing.T) {
 	assert.EqualValues(t, 3, got["c"])
 	assert.EqualValues(t, 12, got["s"])
 }
+
+// TestCountOfConstant: count(1) counts rows; 1 is a constant, not a column
+// named "1" - in a counting window, in a global window and in TRIGGER WHEN.
+func TestCountOfConstant(t *testing.T) {
+	t.Parallel()
+	for _, sql := range []string{
+		"SELECT k, count(1) AS c1, sum(1) AS s1 FROM stream GROUP BY k, CountingWindow(3)",
+		"SELECT k, count(1) AS c1, sum(1) AS s1 FROM stream GROUP BY k, GLOBAL WINDOW TRIGGER WHEN count(*) >= 3",
+		"SELECT k, count(1) AS c1, sum(1) AS s1 FROM stream GROUP BY k, GLOBAL WINDOW TRIGGER WHEN count(1) >= 3",
+		"SELECT k, count(*) AS c1, sum(1) AS s1 FROM stream GROUP BY k, GLOBAL WINDOW TRIGGER WHEN count(1) >= 3",
+	} {
+		got := runGlobalWindowExpr(t, sql)
+		assert.EqualValues(t, 3, got["c1"], sql)
+		assert.EqualValues(t, 3, got["s1"], sql)
+	}
+}
